@@ -172,7 +172,7 @@ PROPS = {
         timeout={"quick": 900, "thorough": 3600},
     ),
     "C18": dict(
-        lean_modules=["Liftbridge.Props.C18"],
+        lean_modules=["Liftbridge.Props.C18", "Liftbridge.Props.GoActivity"],
         gen_sources=["server/activity.go", "server/fsm.go", "server/server.go:Server.leadership", "server/config.go:parseAckPolicy", "server/protocol/internal.pb.go"],
         runs=[dict(go_pkg="./server", test="TestVerifC18"), dict(go_pkg="./server", test="TestVerifC18WithAuthz")],
         level="proof",
